@@ -7,6 +7,11 @@ props = [json.loads(l) for l in open(os.path.join(V, "properties.jsonl"))]
 
 # property id -> (category, technique, level text, level note) ; absent = not claimed (reason in NOT_APPLICABLE)
 CLAIMS = {
+ "C05": ("exploration",
+         "runtime monitoring: tick-trace monitor + reference evaluator with native (hygienic) derived forms over exhaustive form pairs x positions and random nestings",
+         "every ordered pair of the 9 derived forms with the inner one in each of the 33 sub-form positions of the outer one, plus random nestings inside procedures, is evaluated by the real interpreter with a ticking expression in every position; the value and the exact tick trace (which sub-forms ran, how often, in which order) are judged by the reference evaluator. Capture by the unhygienic expander is a listed known finding, recognised by alpha-renaming the program.",
+         "trusted base: derived forms of vlib/ref_scheme.py; programs that use an unspecified value as a test are not generated"),
+
  "C11": ("exploration",
          "runtime monitoring: reference-model oracle on Python lists + tick-trace monitor for procedure arguments over random argument tuples and compositions",
          "random argument tuples for each of the 31 library procedures (in-domain, just outside, too short) and random compositions are evaluated by the real interpreter; value, error-vs-value and the tick trace of procedure arguments (once per element, list order) are judged by a model on Python lists.",
